@@ -1,11 +1,17 @@
 import TxdbusModel.Wire.Infer
 /-
 `sigFromPy` as it was at the pinned snapshot 4c62642, BEFORE the repairs 6ba9f66 (F28: every plain
-int inferred 'i') and fixes/C19-01 (dict value signature from the last item).  Used only by the
+int inferred 'i'), fixes/C19-01 (dict value signature from the last item), fixes/C19-02 (isinstance
+instead of the exact class) and fixes/C19-03 (`()` and non-basic dict keys got a signature).  Used only by the
 witness theorems of Properties/C19.lean ("the pre-fix model violates the property at this input").
 Core Lean only.
 -/
 namespace Txdbus
+
+/-- `all(isinstance(v, vtype) for v in xs)` - the snapshot's `same` flag. -/
+def allInstances (c : PyClass) (xs : List PyVal) : Bool := xs.all (·.isInstance c)
+
+def allValueInstances (c : PyClass) (kvs : List (PyVal × PyVal)) : Bool := kvs.all (·.2.isInstance c)
 
 mutual
 def sigFromPyOrig : PyVal → Except PyErr (List Char)
